@@ -792,7 +792,7 @@ def differing_vectors(k, seed, plane):
 
 
 OPT_ENTRIES_QUICK = ["poisson_p2_triangle", "elasticity_vp1_triangle", "hdiv_rt_triangle", "facets_dg1_triangle",
-                     "facets_p2_triangle_coeff", "all_types_triangle", "coefficient_dropout", "tensor_constants", "multi_degree",
+                     "facets_p2_triangle_coeff", "all_types_triangle", "coefficient_dropout", "tensor_constants", "multi_degree", "same_size_rules",
                      "diagonal_part", "nonlinear_math", "hyperelastic_small", "facets_p1_tetrahedron",
                      "q2_quadrilateral_sumfact", "poisson_p1_tetrahedron", "hcurl_n1_triangle",
                      "dS_bilinear_triangle", "dS_bilinear_tetrahedron", "dS_bilinear_quadrilateral", "q1_quadrilateral_sumfact_bilinear",
